@@ -2,12 +2,14 @@ package props
 
 import (
 	"bytes"
+	"context"
 	"encoding/json"
 	"errors"
 	"fmt"
 	"io"
 	"mime"
 	"mime/multipart"
+	"net"
 	"net/http"
 	"net/http/httptest"
 	"net/url"
@@ -17,6 +19,8 @@ import (
 	"sort"
 	"strings"
 	"sync"
+	"sync/atomic"
+	"syscall"
 
 	fpgo "github.com/TeaEntityLab/fpGo/v2"
 	"github.com/TeaEntityLab/fpGo/v2/network"
@@ -50,6 +54,18 @@ func (c17FailReader) Close() error             { return nil }
 
 var errC17Transport = errors.New("stub: transport failed")
 
+// connection-level failures of the kinds a real transport reports (plain and wrapped)
+var c17TransportErrs = map[string]error{
+	"eof":            io.EOF,
+	"unexpected-eof": io.ErrUnexpectedEOF,
+	"reset":          syscall.ECONNRESET,
+	"epipe":          syscall.EPIPE,
+	"refused":        syscall.ECONNREFUSED,
+	"op-reset":       &net.OpError{Op: "read", Net: "tcp", Err: os.NewSyscallError("read", syscall.ECONNRESET)},
+	"wrapped-eof":    fmt.Errorf("stub: server closed idle connection: %w", io.EOF),
+	"deadline":       context.DeadlineExceeded,
+}
+
 func (s *c17Stub) RoundTrip(r *http.Request) (*http.Response, error) {
 	c := c17Captured{method: r.Method, url: r.URL.String(), header: r.Header.Clone(), hdrPtr: reflect.ValueOf(r.Header).Pointer()}
 	if r.Body != nil {
@@ -62,9 +78,16 @@ func (s *c17Stub) RoundTrip(r *http.Request) (*http.Response, error) {
 	s.mu.Lock()
 	s.reqs = append(s.reqs, c)
 	fault := s.fault
+	nth := len(s.reqs)
 	s.mu.Unlock()
 	if fault == "transport" {
 		return nil, errC17Transport
+	}
+	if strings.HasPrefix(fault, "transport-once:") {
+		// only the FIRST round trip since the last take() fails: a silent second attempt would succeed
+		if nth == 1 {
+			return nil, c17TransportErrs[strings.TrimPrefix(fault, "transport-once:")]
+		}
 	}
 	resp := &http.Response{StatusCode: 200, Status: "200 OK", Proto: "HTTP/1.1", ProtoMajor: 1, ProtoMinor: 1, Header: http.Header{"Content-Type": {"application/json"}}, Request: r}
 	switch fault {
@@ -145,6 +168,9 @@ func (e *c17Env) runCase(cs c17Case, realServer *httptest.Server) {
 	stub := &c17Stub{}
 	switch cs.fault {
 	case "transport", "nonjson", "readfail":
+		stub.fault = cs.fault
+	}
+	if strings.HasPrefix(cs.fault, "transport-once:") {
 		stub.fault = cs.fault
 	}
 	client := &http.Client{Transport: stub}
@@ -368,6 +394,13 @@ func (e *c17Env) runCase(cs c17Case, realServer *httptest.Server) {
 			} else if resp.TargetObject != target || target.V != 42 || target.S != "ok" {
 				e.viol("response:not-decoded-into-target", cs, "TargetObject=%p target=%p content=%+v", resp.TargetObject, target, *target)
 			}
+		default:
+			if strings.HasPrefix(cs.fault, "transport-once:") {
+				want := c17TransportErrs[strings.TrimPrefix(cs.fault, "transport-once:")]
+				if resp.Err == nil || !errors.Is(resp.Err, want) {
+					e.viol("fault:transport-error-not-surfaced", cs, "the transport failed the (only) round trip with %v but Err=%v", want, resp.Err)
+				}
+			}
 		case "transport":
 			if resp.Err == nil || !errors.Is(resp.Err, errC17Transport) {
 				e.viol("fault:transport-error-not-surfaced", cs, "transport failed but Err=%v", resp.Err)
@@ -378,6 +411,68 @@ func (e *c17Env) runCase(cs c17Case, realServer *httptest.Server) {
 			}
 		}
 	}
+}
+
+// response bodies far larger than any read buffer, through the real transport on loopback: the body must be decoded
+// into the target completely
+func (e *c17Env) largeBodies() {
+	var size atomic.Int64
+	srv := httptest.NewServer(http.HandlerFunc(func(w http.ResponseWriter, r *http.Request) {
+		io.Copy(io.Discard, r.Body)
+		w.Header().Set("Content-Type", "application/json")
+		w.Write([]byte(`{"V":42,"S":"`))
+		chunk := []byte(strings.Repeat("x", 4096))
+		for left := int(size.Load()); left > 0; left -= len(chunk) {
+			if left < len(chunk) {
+				chunk = chunk[:left]
+			}
+			w.Write(chunk)
+		}
+		w.Write([]byte(`"}`))
+	}))
+	defer srv.Close()
+	api := network.NewSimpleAPIWithSimpleHTTP(srv.URL+"/api", network.NewSimpleHTTPWithClientAndInterceptors(&http.Client{}))
+	n := int64(0)
+	for _, sz := range []int{0, 512, 4095, 4096, 64 << 10, 1 << 20, 4 << 20} {
+		reps := 3
+		if sz >= 1<<20 {
+			reps = 1
+		}
+		for r := 0; r < reps; r++ {
+			for cons := 0; cons < 3; cons++ {
+				size.Store(int64(sz))
+				target := &c17Target{}
+				var io1 *fpgo.MonadIODef[*network.APIResponse[c17Target]]
+				switch cons {
+				case 0:
+					io1 = network.APIMakeGet[c17Target](api, "big/{n}")(network.PathParam{"n": sz}, target)
+				case 1:
+					io1 = network.APIMakePostJSONBody[*c17Body, c17Target](api, "big")(nil, &c17Body{Name: "b"}, target)
+				default:
+					io1 = network.APIMakePostMultipartBody[c17Target](api, "big")(nil, &network.MultipartForm{Value: map[string][]string{"f": {"v"}}}, target)
+				}
+				var resp *network.APIResponse[c17Target]
+				pv, where := core.Catch(func() { resp = io1.Eval() })
+				n++
+				e.c.Eval(1)
+				e.c.DistinctAdd(1)
+				what := []string{"APIMakeGet", "APIMakePostJSONBody", "APIMakePostMultipartBody"}[cons]
+				if pv != nil {
+					e.c.Violationf("eval:panic:large-body", map[string]any{"constructor": what, "response_bytes": sz}, "%s with a %d byte response body panics: %v at %s", what, sz, pv, where)
+					return
+				}
+				if resp == nil || resp.Err != nil || target.V != 42 || len(target.S) != sz {
+					var err error
+					if resp != nil {
+						err = resp.Err
+					}
+					e.c.Violationf("response:large-body-not-decoded", map[string]any{"constructor": what, "response_bytes": sz}, "%s against a healthy loopback server answering 200 with a %d byte JSON body: Err=%v, target.V=%d, len(target.S)=%d", what, sz, err, target.V, len(target.S))
+					return
+				}
+			}
+		}
+	}
+	e.c.Count("loopback_large_body_cases", n)
 }
 
 func c17HasValue(h http.Header, k, v string) bool {
@@ -444,6 +539,10 @@ func runC17(c *core.Ctx) {
 	templates := []string{"", "users", "users/{id}", "{a}/{b}", "{a}{b}", "{a}/x/{a}", "{a}/{b}/{c}/{d}", "x/{missing}/y"}
 	params := []network.PathParam{nil, {}, {"id": 5}, {"a": "x", "b": "y"}, {"a": 1, "b": 2, "c": 3, "d": 4}, {"a": "sp ace", "b": "ü"}, {"extra": "e", "a": "A"}, {"a": "v/1", "b": true, "id": "q?x=1"}, {"a": "%zz"}}
 	faults := []string{"", "serializer", "transport", "nonjson", "readfail", "deserializer-target", "deserializer-nil"}
+	for k := range c17TransportErrs {
+		faults = append(faults, "transport-once:"+k)
+	}
+	sort.Strings(faults[7:])
 	var cases []c17Case
 	for cons := 0; cons < len(c17ConsNames); cons++ {
 		for _, t := range templates {
@@ -481,6 +580,7 @@ func runC17(c *core.Ctx) {
 		}
 	}
 	c.Count("loopback_cases", int64(n))
+	e.largeBodies()
 	for i := 0; i < len(cases); i += len(cases)/5 + 1 {
 		c.Sample(cases[i].String())
 	}
@@ -492,8 +592,8 @@ func init() {
 		Meta: func(c *core.Ctx) core.Meta {
 			return core.Meta{
 				Level: "fault_enumeration",
-				Rule: "11 constructors x 8 relative templates (0..4 placeholders, repeated and adjacent) x 9 PathParam maps (nil, empty, missing, extra, 1..4 keys, spaces, unicode, slash, '?', unparsable escape) x 4 bodies x 3 DefaultHeader sets x 7 injected outcomes (none, serializer error, transport error, non-JSON body, unreadable body, deserializer (target,err), deserializer (nil,err)); thorough = full product, quick = full over constructor x template x params x fault with bodies/headers rotated. " +
-					"A stub RoundTripper under SimpleHTTP captures method, URL, header map (identity + content) and body; each case: nothing before Eval, exactly one request per Eval (x2), expected method/URL/headers/body, target decoded, failures surface as Err without panic; a subset also through the real transport against a loopback server. distinct_nontrivial = enumerated cases (distinct by construction)",
+				Rule: "11 constructors x 8 relative templates (0..4 placeholders, repeated and adjacent) x 9 PathParam maps (nil, empty, missing, extra, 1..4 keys, spaces, unicode, slash, '?', unparsable escape) x 4 bodies x 3 DefaultHeader sets x 15 injected outcomes (none, serializer error, transport error, a first round trip failing with EOF / unexpected EOF / ECONNRESET / EPIPE / ECONNREFUSED / net.OpError / wrapped EOF / deadline while a second one would succeed, non-JSON body, unreadable body, deserializer (target,err), deserializer (nil,err)); thorough = full product, quick = full over constructor x template x params x fault with bodies/headers rotated. " +
+					"A stub RoundTripper under SimpleHTTP captures method, URL, header map (identity + content) and body; each case: nothing before Eval, exactly one request per Eval (x2), expected method/URL/headers/body, target decoded, failures surface as Err without panic; a subset also through the real transport against a loopback server, plus response bodies of 0 B .. 4 MiB through the real transport. distinct_nontrivial = enumerated cases (distinct by construction)",
 				Assumptions: []string{"expected URL = BaseURL + '/' + template with every supplied {key} replaced by fmt.Sprint(value); values contain no braces; if that string does not parse as a URL the evaluation must yield Err",
 					"expected headers = DefaultHeader values + the declared Content-Type appended; the stub sees the request before net/http's real transport adds its own headers"},
 				Exhaustive: c.Thorough(),
